@@ -30,8 +30,9 @@ Definition no_F18 (a : auth_input) : Prop :=
   forall m t keys, ai_new_member a = Some m -> m_membership m = MsInvite -> m_tpi m = Some t ->
     ai_tpi_event a = Some (Some keys) ->
     ai_target_member a <> Some MsBan /\ ai_tpi_sender_ok a = true /\ ai_sig_ok_spec a = ai_sig_ok a.
-(* a membership event other than an invite that carries third_party_invite is refused when the
-   m.room.third_party_invite event is not among the auth events *)
+(* F27: a membership event other than an invite that carries a third_party_invite block is refused
+   by the library when the m.room.third_party_invite event is not among the auth events, although
+   the rules ignore the block there (recorded known finding; witness F27_refuted in Props/C07.v) *)
 Definition no_tpi_on_non_invite (a : auth_input) : Prop :=
   forall m t, ai_new_member a = Some m -> m_tpi m = Some t -> m_membership m <> MsInvite ->
     exists keys, ai_tpi_event a = Some (Some keys).
